@@ -224,6 +224,8 @@ type funcInfo struct {
 	// stateAt: the epochs of the class-invariant fields at loads of such fields, calls and returns
 	stateAt map[ssa.Instruction]map[string]string
 	cleanEp map[string]bool
+	// busyEpoch: epoch-join atoms being split (ext_x2.go)
+	busyEpoch map[string]bool
 }
 
 func slotOf(v ssa.Value) (base ssa.Value, fname string, ok bool) {
@@ -446,6 +448,15 @@ func analyzeEpochs(fi *funcInfo) {
 						cur[f] = fmt.Sprintf("st@%d.%d", b.Index, i)
 						fi.epoch[ins] = map[string]string{f: cur[f]}
 					}
+					// a store of a whole struct value replaces every field of an object of that type
+					if _, isStruct := v.Val.Type().Underlying().(*types.Struct); isStruct {
+						prefix := types.TypeString(v.Val.Type(), nil) + "."
+						for f := range fi.fields {
+							if strings.HasPrefix(f, prefix) {
+								cur[f] = fmt.Sprintf("st@%d.%d", b.Index, i)
+							}
+						}
+					}
 				case ssa.CallInstruction:
 					if fi.callEpoch == nil {
 						fi.callEpoch = map[ssa.Instruction]map[string]string{}
@@ -556,6 +567,7 @@ func (fi *funcInfo) lenOf(v ssa.Value) Lin {
 				if r, ok := fi.rel[ep+"|"+f+"|"+fi.vname(base)]; ok {
 					return r
 				}
+				noteEpochAtom(key, fi, base, f, ep)
 				return atom(key)
 			}
 		}
@@ -667,6 +679,7 @@ func (fi *funcInfo) term0(v ssa.Value) Lin {
 			}
 			va := fmt.Sprintf("val(%s.%s@%s)", fi.vname(base), f, ep)
 			valAtomType[va] = u.Type()
+			noteValAtom(va, u)
 			return atom(va)
 		}
 	}
@@ -1002,6 +1015,9 @@ func (fi *funcInfo) contractFacts(a string, v ssa.Value, seen map[string]bool) [
 	name := ""
 	if sc := com.StaticCallee(); sc != nil {
 		name = sc.String()
+		if o := sc.Origin(); o != nil {
+			name = o.String() // an instance of a generic library function
+		}
 	} else if com.IsInvoke() {
 		name = com.Method.FullName()
 	}
@@ -1028,6 +1044,11 @@ func (fi *funcInfo) contractFacts(a string, v ssa.Value, seen map[string]bool) [
 		// -1, or the index of a byte of the argument
 		p := fi.lenOf(com.Args[0])
 		out = append(out, atom(a).addK(1), p.sub(atom(a)).addK(-1))
+		out = append(out, fi.rangeFactsSeen(seen, p)...)
+	case "slices.BinarySearch", "slices.BinarySearchFunc":
+		// the position where the target is found or would be inserted
+		p := fi.lenOf(com.Args[0])
+		out = append(out, atom(a), p.sub(atom(a)))
 		out = append(out, fi.rangeFactsSeen(seen, p)...)
 	case "strings.Index", "strings.LastIndex", "bytes.Index", "bytes.LastIndex":
 		// -1, or the start of an occurrence: at most len(s) (the empty string occurs at the end)
@@ -1071,6 +1092,7 @@ func (fi *funcInfo) rangeFactsSeen(seen map[string]bool, ls ...Lin) []Lin {
 			out = append(out, assumedFacts(a)...)
 			out = append(out, classInvFacts(a)...)
 			out = append(out, fieldRangeFacts(a)...)
+			out = append(out, localObjRangeFacts(a)...)
 			if t, ok := valAtomType[a]; ok {
 				if lo, hi := typeRange(t); lo != nil {
 					out = append(out, atom(a).sub(konstBig(lo)), konstBig(hi).sub(atom(a)))
@@ -1166,6 +1188,9 @@ func (fi *funcInfo) condFacts(c ssa.Value, truth bool) []Lin {
 	}
 	if pf := fi.predFactsX1(c, truth); len(pf) > 0 {
 		return pf // the condition is the result of a small module predicate (ext_x1.go)
+	}
+	if bf := fi.boolResultFacts(c, truth); len(bf) > 0 {
+		return bf
 	}
 	switch x := c.(type) {
 	case *ssa.UnOp:
